@@ -24,7 +24,7 @@ META = {
                     "rejection loops bounded by a logical draw budget; exceeding it with natural draws is skipped (inconclusive for that case)"],
     "deciding": ["trace:placement", "trace:count-conservation", "trace:quantile", "determinism:seeded-rerun"],
 }
-META["added"] = 'Added: hostile legal-draw schedules, primitives on arrays up to 2000 bins, Fortran / transposed / strided tables and re-scaled forecasts, injected draws exactly on the lower cumulative boundary of distinct cells (0.0 for the first positive cell) for the binary and Brier simulators, weights bound (4(k+1)+2n) eps. single-precision rate tables, one injected row per simulation for the binary tests, array-valued scale factors. round-rate forecasts producing near-ties of simulated and observed scores. observed events in zero-rate bins.'
+META["added"] = 'Added: hostile legal-draw schedules, primitives on arrays up to 2000 bins, Fortran / transposed / strided tables and re-scaled forecasts, injected draws exactly on the lower cumulative boundary of distinct cells (0.0 for the first positive cell) for the binary and Brier simulators, weights bound (4(k+1)+2n) eps. single-precision rate tables, one injected row per simulation for the binary tests, array-valued scale factors. round-rate forecasts producing near-ties of simulated and observed scores. observed events in zero-rate bins. numpy-integer seeds.'
 MANIFEST = {
     "technique": "RNG boundary log + hostile legal-draw injection + simulator boundary log, offline inverse-CDF trace checker with exact comparisons; seeded re-run determinism with scrambled global RNG state",
     "level_text": "Every simulator call made by the 7 gridded tests on generated inputs is recorded (weights, draws, returned counts) and re-derived offline by exact comparison; hostile legal draws (0, every cumulative boundary +-1ulp, largest double below 1) are injected through the RNG boundary and through random_numbers=; count conservation, zero-rate exclusion, quantile identity and seed determinism (incl. seed 0, after scrambling the global RNG) are decided on the trace.",
@@ -252,7 +252,7 @@ def ex_case(ctx, case, test="CL", num_sim=3, source="seed", seed=1, layout="C", 
     bd = boundary_draws(r1d, single=(layout == "f32"))
     rgen = numpy.random.default_rng([seed, 11])
     if source == "seed":
-        kw["seed"] = seed
+        kw["seed"] = seed if seed % 3 else numpy.int64(seed)          # seeds also arrive as numpy integers (numpy.arange elements, SeedSequence states)
     elif source == "inject":
         n_draw = n_obs if poisson else n_active
         if test == "L" or n_draw == 0:
